@@ -7,22 +7,33 @@ effects, and 'absent or complete': no written byte is still in a user-space
 buffer when BucketWriter publishes the share by rename, and nothing writes share
 data after that rename (DESIGN.md section 5, C29)."""
 from sa.h import *
+from fractions import Fraction
 
 EXPLANATION = (
     "Decided (structural): (1) ShareFile.add_lease packs the new lease count (so an unencodable count raises before "
     "any write), then writes the lease record at index = current count, then writes the count; both writes happen on "
     "every normal path. (2) ShareFile.cancel_lease rewrites the surviving records, then the count, then truncates, "
-    "all with len(survivors); the share file is unlinked only when no lease survives (immutable and mutable). "
+    "all with len(survivors); an entry is dropped from the lease list only on the matched branch of "
+    "<lease>.is_cancel_secret(secret) for that entry; the share file is unlinked only when no lease survives (immutable "
+    "and mutable). "
     "(3) StorageServer.__init__ calls _clean_incomplete() (= fileutil.rm_dir(self.incomingdir)) on every path, after "
-    "incomingdir is set, and nothing else calls it. (4) Lease operations write only outside the "
+    "incomingdir is set, and nothing else calls it; incomingdir is os.path.join(<non-constant base>, <constant proper "
+    "relative components>) - never the share directory itself or an absolute later component - is not re-bound after the "
+    "cleaning, and every BucketWriter is constructed on a path os.path.join(self.incomingdir, ...). (4) Lease operations write only outside the "
     "data region: immutable records at _lease_offset + k*LEASE_SIZE, the count at 0x08 with at most 4 bytes, truncate "
     "at _lease_offset + k*LEASE_SIZE; mutable records at HEADER_SIZE + k*LEASE_SIZE only for k < 4 "
     "(HEADER_SIZE + 4*LEASE_SIZE == DATA_OFFSET by constant folding) or behind the extra-lease offset; the lease "
-    "methods call no data-writing helper and never open the share in a truncating mode. (5) Symbolic crash check: "
+    "methods call no data-writing helper and never open the share in a truncating mode; the immutable data region "
+    "[_data_offset, _data_offset + max_size) starts at or after the end of the count field (0x0c) and ends at or before "
+    "the creation-time lease area (max_size + K, K >= _data_offset, constants folded), and neither offset is re-bound "
+    "outside ShareFile.__init__. (5) Symbolic crash check: "
     "with F = file size and N = stored lease count, ShareFile.__init__ recomputes the end of the data region as "
     "F - N*LEASE_SIZE; the ordered file effects of add_lease / cancel_lease are replayed on (F, N) and the formula "
     "must give the same value after every prefix. (6) MutableShareFile._write_lease_record: when a new extra-lease "
-    "slot is appended, the record is written before the slot count that makes it visible. "
+    "slot is appended, the record is written before the slot count that makes it visible; the count written is at most "
+    "one above the stored count (or lease_number - 3), and it is written only on paths that passed a test establishing "
+    "lease_number - 4 >= stored count (directly, or through a boolean flag whose every true assignment is so guarded) - "
+    "never after a write to a header slot or an existing extra slot. "
     "(7) Absent-or-complete, buffers: every creation of a buffered writable file object in ShareFile / BucketWriter is "
     "classified (with-block: closed when the block is left; local name only: released when the method returns, which "
     "assumes CPython reference counting; stored in an instance attribute: it outlives the call). For each file object "
@@ -32,7 +43,11 @@ EXPLANATION = (
     "function itself must be closed/flushed before the rename. (8) After the publishing rename no data-writing "
     "ShareFile method (one that write()s/truncate()s outside the lease helpers), no BucketWriter helper reaching one "
     "and no write through a kept file object is reachable. "
-    "Undecided: everything that needs real crash points - torn writes inside one f.write, fsync/ordering in the OS, "
+    "Undecided (value level): that callers pass lease_number == 4 + stored count when they append a mutable lease; which "
+    "secret a lease holds (renew/cancel matching itself, expiry comparisons, NoSpace accounting belong to the lease "
+    "properties); the value get_length() reports (_length); negative offsets / oversize writes in write_share_data "
+    "(bounded by C22.5); "
+    "everything that needs real crash points - torn writes inside one f.write, fsync/ordering in the OS, "
     "the documented windows in MutableShareFile._change_container_size/_write_share_data (known non-claims).")
 TECHNIQUE = ("static analysis: CFG must-precede/must-follow rules, normalised seek/truncate targets, constant folding, "
              "symbolic replay of file effects against the re-open formula, escape classification of file objects + "
@@ -411,8 +426,8 @@ def run(ctx: Context):
 
     # ---------------------------------------------------------------- 2. cancel_lease ordering
     with ctx.rule("C29.2", "R1", "ShareFile.cancel_lease: surviving records, then count, then truncate, all for "
-                  "len(survivors); the file is unlinked only when no lease survives (also MutableShareFile)",
-                  expected=5) as r:
+                  "len(survivors); only leases matching the cancel secret are dropped; the file is unlinked only when "
+                  "no lease survives (also MutableShareFile)", expected=6) as r:
         fn = idx.func(SF + ".cancel_lease")
         mfn = idx.func(MSF + ".cancel_lease")
         cfg = fn.cfg()
@@ -440,6 +455,59 @@ def run(ctx: Context):
                 ds = [d for d in (all_defs(fn).get(survivors) or []) if d is not None]
                 r.require(any(isinstance(d, ast.ListComp) and d.generators and d.generators[0].ifs for d in ds), fn, fn.loc(c),
                           "the rewritten list %s is not the compacted list of non-cancelled leases" % survivors)
+        # which entries leave the list: only leases that matched the cancel secret (otherwise a live lease is dropped
+        # and, when nothing else is left, the share is unlinked under it)
+        if survivors:
+            cparam = first_positional_params(fn)[0]
+            comps = [d for d in (all_defs(fn).get(survivors) or [])
+                     if isinstance(d, ast.ListComp) and d.generators and d.generators[0].ifs]
+            for comp in comps:
+                g = comp.generators[0]
+                r.site(fn, comp, "selection")
+                elt = g.target.id if isinstance(g.target, ast.Name) else None
+                cond = g.ifs[0] if len(g.ifs) == 1 else None
+                if isinstance(cond, ast.Name) and cond.id == elt and isinstance(g.iter, ast.Name):
+                    # [l for l in <list> if l]: an entry is dropped by storing None (a false value) into <list>
+                    src_list = g.iter.id
+
+                    def matched(m, lab, _recv=None):
+                        ef = fnorm.edge_fact(m, lab)
+                        if not ef or ef[0] != "truth":
+                            return False
+                        mm = re.match(r"^([A-Za-z_]\w*)\.is_cancel_secret\(%s\)$" % re.escape(cparam), ef[1] or "")
+                        return mm is not None and (_recv is None or mm.group(1) == _recv)
+                    for x in cfg.nodes:
+                        if x.kind != "stmt" or not isinstance(x.ast, ast.Assign):
+                            continue
+                        subs = [t for t in x.ast.targets if isinstance(t, ast.Subscript) and isinstance(t.value, ast.Name)
+                                and t.value.id == src_list]
+                        if not subs:
+                            continue
+                        v = x.ast.value
+                        if not (isinstance(v, ast.Constant) and not v.value):
+                            continue                    # a true value stays in the compacted list
+                        recv = None
+                        h = enclosing_loop(cfg, x)
+                        if h is not None and isinstance(h.ast.iter, ast.Call) and call_name(h.ast.iter) == "enumerate" \
+                                and len(h.ast.iter.args) == 1 and attr_path(h.ast.iter.args[0]) == src_list:
+                            tn = loop_target_names(h.ast)
+                            if len(tn) == 2 and all(tn):
+                                recv = tn[1]
+                                for t in subs:
+                                    r.require(isinstance(t.slice, ast.Name) and t.slice.id == tn[0], fn, fn.loc(x.ast),
+                                              "%s blanks entry %s of %s while examining entry %s: another lease than the "
+                                              "matching one is dropped" % (short(fn), src(fn, t.slice), src_list, tn[0]))
+                        for (t, w) in dominated(cfg, x, None, gate_edge=lambda m, lab, _r=recv: matched(m, lab, _r)):
+                            r.violation(fn, fn.loc(x.ast), "%s drops a lease (%s) on a path where its cancel secret was not "
+                                        "matched (%s.is_cancel_secret(%s) true): a lease that was not cancelled disappears, "
+                                        "and when no other lease is left the share file is unlinked under it (path: %s)" % (
+                                            short(fn), src(fn, x.ast), recv or "<lease>", cparam, w.brief()), w)
+                elif isinstance(cond, ast.UnaryOp) and isinstance(cond.op, ast.Not) and isinstance(cond.operand, ast.Call) \
+                        and call_tail(cond.operand) == "is_cancel_secret" and attr_path(cond.operand.func) == "%s.is_cancel_secret" % elt \
+                        and len(cond.operand.args) == 1 and attr_path(cond.operand.args[0]) == cparam:
+                    pass                                # [l for l in <list> if not l.is_cancel_secret(secret)]
+                else:
+                    raise AnalysisError("%s: cannot see which leases %s keeps; extend the rule" % (short(fn), src(fn, comp)))
         want_len = "len(%s)" % survivors if survivors else None
         heads = [enclosing_loop(cfg, n) for n in rec_nodes]
         for n in cnt_nodes:
@@ -522,7 +590,8 @@ def run(ctx: Context):
 
     # ---------------------------------------------------------------- 3. start-up
     with ctx.rule("C29.3", "R1", "StorageServer.__init__ discards incoming/ (_clean_incomplete -> rm_dir(incomingdir)) "
-                  "on every path of server construction, and only there", expected=3) as r:
+                  "on every path of server construction, and only there; incomingdir is a proper subdirectory of the "
+                  "share directory and the place where bucket writers create their files", expected=5) as r:
         init = idx.func(SS + ".__init__")
         cl = idx.func(SS + "._clean_incomplete")
         icfg = init.cfg()
@@ -555,10 +624,82 @@ def run(ctx: Context):
         bad, badrefs, total = callers_outside(idx, "_clean_incomplete", [SS + ".__init__"])
         for cs in bad:
             r.violation(cs.fn, cs.loc, "%s discards incoming/ outside start-up" % short(cs.fn))
+        # what is discarded is a proper subdirectory of the share directory, fixed before the cleaning, and it is
+        # the place where uploads in progress live
+        ino = FlowNorm(init)
+        ivals = [(n, v) for n in icfg.nodes for v in [assign_value(n, "self.incomingdir")] if v is not None]
+        if not ivals:
+            raise AnchorVanished("StorageServer.__init__ no longer sets self.incomingdir")
+        locals_ = set(all_defs(init)) | set(init.params)
+
+        def const_str(n, e):
+            e = ino.resolve(n, e)
+            if isinstance(e, ast.Constant):
+                return e.value if isinstance(e.value, (str, bytes)) else None
+            if any(isinstance(x, ast.Name) and x.id in locals_ for x in ast.walk(e)):
+                return None
+            try:
+                v = folder.fold(e, init.module, init.cls)
+            except NotConstant:
+                return None
+            return v if isinstance(v, (str, bytes)) else None
+        for (n, v) in ivals:
+            r.site(init, v, "incoming directory")
+            e = ino.resolve(n, v)
+            if not (isinstance(e, ast.Call) and call_name(e) == "os.path.join" and len(e.args) >= 2 and not e.keywords
+                    and not any(isinstance(a, ast.Starred) for a in e.args)):
+                raise AnalysisError("%s: cannot tell where the incoming directory %s lies relative to the shares; "
+                                    "extend the rule" % (short(init), src(init, v)))
+            r.require(const_str(n, e.args[0]) is None, init, init.loc(v), "the incoming directory %s does not start from the "
+                      "configured storage directory" % src(init, v))
+            for a in e.args[1:]:
+                cs_ = const_str(n, a)
+                if isinstance(cs_, bytes):
+                    cs_ = cs_.decode("latin-1")
+                if cs_ is None:
+                    r.violation(init, init.loc(v), "the incoming directory is %s: os.path.join discards everything before an "
+                                "absolute component, so with an absolute %s the directory removed by _clean_incomplete at "
+                                "every start is %s itself - with all the shares in it" % (src(init, v), src(init, a), src(init, a)))
+                    continue
+                comps = cs_.rstrip("/").split("/")
+                r.require(cs_.rstrip("/") != "" and not cs_.startswith("/") and not any(c in ("", ".", "..") for c in comps),
+                          init, init.loc(v), "the incoming directory %s is not a proper subdirectory of %s: _clean_incomplete "
+                          "removes that directory (and the published shares in it) at every start" % (src(init, v), src(init, e.args[0])))
+        for cnode in cn:
+            vis, _p = explore(icfg, 0, lambda a_, l_, nx, s_: 0, start=cnode)
+            for (i, _s) in vis:
+                if i != cnode.id and any(icfg.nodes[i] is n for (n, _v) in ivals):
+                    r.violation(init, init.loc(icfg.nodes[i].ast), "self.incomingdir is re-bound after incoming/ was cleaned: "
+                                "uploads go to a directory that was not emptied")
+        for (f, nd) in cg.attr_stores("incomingdir"):
+            if f is not init and f.cls is not None and init.cls in f.cls.mro():
+                r.violation(f, f.loc(nd), "%s re-binds self.incomingdir: later uploads live outside the directory that is "
+                            "discarded at start-up" % short(f))
+        bwc = idx.cls(BW)
+        n_bw = 0
+        seen_calls = set()
+        for cs in cg.calls_named(bwc.name):
+            if id(cs.call) in seen_calls or cs.fn.name == "<module>" or idx.resolve_expr_to_class(cs.fn.module, cs.call.func) is not bwc:
+                continue
+            seen_calls.add(id(cs.call))
+            n_bw += 1
+            r.site(cs.fn, cs.call, "upload in progress")
+            inc = arg(cs.call, 1, first_positional_params(idx.func(BW + ".__init__"))[1])
+            node = _cfg_node_of(cs.fn, cs.call)
+            if inc is None or node is None:
+                raise AnalysisError("%s: cannot see where %s puts the share being written" % (short(cs.fn), src(cs.fn, cs.call)))
+            cno = FlowNorm(cs.fn)
+            ie = cno.resolve(node, inc)
+            ok = isinstance(ie, ast.Call) and call_name(ie) == "os.path.join" and len(ie.args) >= 2 \
+                and cno.norm(node, ie.args[0]) == "self.incomingdir" and cs.fn.cls is not None and init.cls in cs.fn.cls.mro()
+            r.require(ok, cs.fn, cs.loc, "the share being written is created at %s, not below self.incomingdir: a partial "
+                      "upload left by a crash is not discarded at the next start" % src(cs.fn, ie))
+        if n_bw == 0:
+            raise AnchorVanished("no BucketWriter construction found")
 
     # ---------------------------------------------------------------- 4. regions written by lease operations
     with ctx.rule("C29.4", "R5/R4", "lease operations write only lease records (behind the data), the 4-byte count at "
-                  "0x08 / the extra-lease count, never the data region; no truncating open", expected=8) as r:
+                  "0x08 / the extra-lease count, never the data region; no truncating open", expected=9) as r:
         # immutable record
         wl = idx.func(SF + "._write_lease_record")
         wn_ = FlowNorm(wl)
@@ -615,6 +756,51 @@ def run(ctx: Context):
         for (n, v) in fmt_vals:
             r.require(isinstance(v, ast.Call) and call_tail(v) == "_fix_lease_count_format", ini, ini.loc(v),
                       "the lease-count format %s is not validated by _fix_lease_count_format" % src(ini, v))
+        # the data region [_data_offset, _data_offset + max_size) lies between the count field and the lease area:
+        # otherwise the count written by add_lease, or lease record 0, lands on share data
+        ino4 = FlowNorm(ini)
+        msz = [v for n in ini.cfg().nodes for v in [assign_value(n, "self._max_size")] if v is not None]
+        if not msz or not all(isinstance(v, ast.Name) and v.id in ini.params for v in msz) or len({v.id for v in msz}) != 1:
+            raise AnalysisError("ShareFile.__init__: self._max_size is not bound to one parameter; cannot bound the data region")
+        wsd = idx.func(SF + ".write_share_data")
+        if not any(attr_path(x) == "self._max_size" for x in func_own_nodes(wsd) if isinstance(x, ast.Attribute)) \
+                or not any(attr_path(x) == "self._data_offset" for x in func_own_nodes(wsd) if isinstance(x, ast.Attribute)):
+            raise AnchorVanished("write_share_data no longer places data at _data_offset and bounds it by _max_size")
+        msz_atom = Poly.atom(msz[0].id)
+        def const_int(n, v):
+            k = ino4.at(n).poly(v).const_value()
+            if k is None:
+                try:
+                    k = folder.fold(ino4.resolve(n, v), ini.module, ini.cls)
+                except NotConstant:
+                    return None
+            return k if isinstance(k, (int, Fraction)) and not isinstance(k, bool) else None
+        d_offs = [(n, const_int(n, v)) for n in ini.cfg().nodes
+                  for v in [assign_value(n, "self._data_offset")] if v is not None]
+        creat = []
+        for n in ini.cfg().nodes:
+            v = assign_value(n, "self._lease_offset")
+            if v is not None:
+                kk = (ino4.at(n).poly(v) - msz_atom).const_value()
+                if kk is not None:
+                    creat.append((n, kk))
+        if not d_offs or not creat:
+            raise AnchorVanished("ShareFile.__init__ no longer sets _data_offset and the creation-time _lease_offset")
+        if any(k2 is None for (_n, k2) in d_offs):
+            raise AnalysisError("ShareFile.__init__: _data_offset is not a constant; extend the rule")
+        COUNT_END = 8 + 4          # seek target and maximal width of the count, both established above
+        r.site(ini, d_offs[0][0].ast, "data region bounds")
+        for (n, k2) in d_offs:
+            r.require(k2 >= COUNT_END, ini, ini.loc(n.ast), "the share data starts at offset %s, inside the header: the lease "
+                      "count that add_lease/cancel_lease write at 0x08..0x0b overwrites share data (and data overwrites "
+                      "the count)" % k2)
+            for (cn4, k1) in creat:
+                r.require(k1 >= k2, ini, ini.loc(n.ast), "share data occupies [%s, %s + max_size) but the lease area of a new "
+                          "share starts at max_size + %s: the last %s data byte(s) and lease record 0 overlap, so adding or "
+                          "renewing that lease changes share data" % (k2, k2, k1, k2 - k1))
+        for (f, nd) in list(cg.attr_stores("_data_offset")) + list(cg.attr_stores("_lease_offset")):
+            if f is not ini and f.cls is not None and ini.cls in f.cls.mro():
+                r.violation(f, f.loc(nd), "%s moves the data region / lease area of an open share" % short(f))
         # immutable truncate
         tl = idx.func(SF + "._truncate_leases")
         tn_ = FlowNorm(tl)
@@ -831,6 +1017,26 @@ def run(ctx: Context):
         if not mw.cfg().find(recw):
             raise AnchorVanished("MutableShareFile._write_lease_record no longer writes a serialised lease")
         n_inc = 0
+        mps6 = first_positional_params(mw)
+        NUM6 = "self._read_num_extra_leases(%s)" % mps6[0]
+        P_NUM = N().poly(parse_expr(NUM6))
+        P_SLOT = N().poly(parse_expr("%s - 4" % mps6[1]))           # index among the extra slots
+        mn6 = FlowNorm(mw)
+
+        def newslot_edge(m, lab):
+            """The edge establishes lease_number - 4 >= <stored extra count>: the slot written is not an existing one."""
+            ef = mn6.edge_fact(m, lab)
+            if not ef or ef[0] not in ("<", "<=", "==") or ef[2] is None:
+                return False
+            try:
+                D = N().poly(parse_expr(ef[2])) - N().poly(parse_expr(ef[1]))
+            except Exception:
+                return False
+            for sg in ((1, -1) if ef[0] == "==" else (1,)):
+                cv = ((D if sg == 1 else -D) - (P_SLOT - P_NUM)).const_value()
+                if cv is not None and -cv >= (-1 if ef[0] == "<" else 0):
+                    return True
+            return False
         for f in sorted(idx.cls(MSF).methods.values(), key=lambda m: m.name):
             if f.name == "_write_num_extra_leases":
                 continue
@@ -838,6 +1044,43 @@ def run(ctx: Context):
             for n in mcfg.find(has_call("_write_num_extra_leases")):
                 n_inc += 1
                 r.site(f, n.ast, "slot count")
+                if f is mw:
+                    bc = calls_at(n, "_write_num_extra_leases")[0]
+                    # (a) the count grows by at most one slot - a count beyond the records makes every reader fail
+                    cval = mn6.at(n).poly(bc.args[1]) if len(bc.args) == 2 else None
+                    over = [(cval - base).const_value() for base in (P_NUM, P_SLOT)] if cval is not None else [None, None]
+                    if all(o is None for o in over):
+                        raise AnalysisError("%s: cannot interpret the extra-lease count %s; extend the rule" % (short(f), src(f, bc)))
+                    r.require(any(o is not None and o <= 1 for o in over), f, f.loc(bc), "the extra-lease count is set to %s, "
+                              "more than one above the stored count: it names slots whose records were never written, and "
+                              "every later get_leases/add_lease on the share fails in unserialize" % src(f, bc.args[1]))
+                    # (b) and only when the slot just written is a new one
+                    if not any(newslot_edge(m, lab) for m in mcfg.nodes for (_d, lab) in mcfg.succ[m.id]):
+                        raise AnalysisError("%s: no test of the slot number against the stored extra-lease count found; "
+                                            "extend the rule" % short(f))
+                    direct = dominated(mcfg, n, None, gate_edge=newslot_edge)
+                    if direct:
+                        ok = False
+                        flags = {ef[1] for m in mcfg.nodes for (_d, lab) in mcfg.succ[m.id]
+                                 for ef in [mn6.edge_fact(m, lab)] if ef and ef[0] == "truth" and re.match(r"^[A-Za-z_]\w*$", ef[1] or "")}
+                        for fl in sorted(flags):
+                            if fl in f.params:
+                                continue
+                            if dominated(mcfg, n, None, gate_edge=lambda m, lab, _fl=fl: mn6.edge_fact(m, lab) == ("truth", _fl, None)):
+                                continue
+                            sts = [x for x in mcfg.nodes if fl in node_stores(x)]
+                            if not all(x.kind == "stmt" and isinstance(x.ast, ast.Assign) and isinstance(x.ast.value, ast.Constant)
+                                       for x in sts):
+                                continue
+                            if all(not dominated(mcfg, x, None, gate_edge=newslot_edge) for x in sts if x.ast.value.value):
+                                ok = True
+                        if not ok:
+                            t, w = direct[0]
+                            r.violation(f, f.loc(bc), "the extra-lease count is raised on a path where the record was written "
+                                        "to a header slot or to an existing extra slot (no test %s - 4 >= %s on it): the file "
+                                        "did not grow, so the count names a slot beyond its end and every later "
+                                        "get_leases/add_lease on the share fails in unserialize (path: %s)" % (
+                                            mps6[1], NUM6, w.brief()), w)
                 for (t, w) in dominated(mcfg, n, recw):
                     r.violation(f, f.loc(n.ast), "the extra-lease count is raised before the new record exists: after a "
                                 "crash in between, the count names a slot beyond the end of the file and every later "
